@@ -1112,7 +1112,7 @@ func (m *Nitro) LoadFromDisk(dir string, concurr int, callb ItemCallback) (*Snap
 					itm, err := r.ReadItem()
 					if err != nil {
 						errors[shard] = err
-						return
+						break loop
 					}
 
 					if itm == nil {
@@ -1201,7 +1201,7 @@ func (m *Nitro) LoadFromDisk(dir string, concurr int, callb ItemCallback) (*Snap
 						itm, err := r.ReadItem()
 						if err != nil {
 							errors[shard] = err
-							return
+							break loop
 						}
 
 						if itm == nil {
